@@ -766,3 +766,26 @@ func init() {
 func unusedTail() value {
 	return []value(nil)
 }
+
+func init() {
+	// ReplaceAllStringFunc on symbolic bytes: matches found by the decision-
+	// based matcher, the replacement function is interpreted on each match.
+	nat := intrinsics["(*regexp.Regexp).ReplaceAllStringFunc"]
+	intrinsics["(*regexp.Regexp).ReplaceAllStringFunc"] = func(fr *frame, a []value) value {
+		if !isSymStr(a[1]) {
+			return nat(fr, a)
+		}
+		re := (*a[0].(*value)).(native).v.(*regexp.Regexp)
+		s := bytesOf(a[1])
+		var out []value
+		last := 0
+		for _, m := range allMatches(re, s, -1) {
+			out = append(out, s[last:m[0]]...)
+			r := call(fr.i, fr, 0, a[2], []value{mkStr(s[m[0]:m[1]])})
+			out = append(out, bytesOf(r)...)
+			last = m[1]
+		}
+		out = append(out, s[last:]...)
+		return mkStr(out)
+	}
+}
